@@ -103,7 +103,10 @@ class World:
 
     def __init__(self, params=None):
         from bellows.ash import AshProtocol
+        from mc import vclock
+        from mc.checks.c02 import _FrozenClock
 
+        vclock.set_clock(_FrozenClock)      # driven synchronously, without a loop: the monotonic clock stands still
         if params and params.get("twin"):
             # another link in the same process, left mid-operation (a frame accepted, half a frame buffered, discarding after a
             # SUBSTITUTE byte): state that leaks between AshProtocol objects (class-level buffers / counters) would show below
